@@ -58,7 +58,8 @@ func OnErrorResumeNextWith[T any](finally ...Observable[T]) func(Observable[T]) 
 			return source
 		}
 
-		finally = append([]Observable[T]{source}, finally...)
+		// Do not assign to the captured variadic: the operator value may be applied to several sources.
+		sources := append([]Observable[T]{source}, finally...)
 
 		return NewUnsafeObservableWithContext(func(subscriberCtx context.Context, destination Observer[T]) Teardown {
 			subscriptions := NewSubscription(nil)
@@ -67,14 +68,14 @@ func OnErrorResumeNextWith[T any](finally ...Observable[T]) func(Observable[T]) 
 
 			var err error
 
-			for i := range finally {
+			for i := range sources {
 				if subscriptions.IsClosed() {
 					break
 				}
 
 				err = nil
 
-				sub := finally[i].SubscribeWithContext(
+				sub := sources[i].SubscribeWithContext(
 					subscriberCtx,
 					NewObserverWithContext(
 						destination.NextWithContext,
